@@ -22,24 +22,25 @@ CONSTANTS Blocks,        \* block ids
           MaxSeries,     \* series per block 0..MaxSeries
           MaxChunks,     \* chunks per series 1..MaxChunks
           MaxExtra,      \* postings without series per block 0..MaxExtra
-          Limits,        \* candidate limit values (0 = unlimited)
+          SLimits,       \* candidate series limits (0 = unlimited)
+          CLimits,       \* candidate chunk limits (0 = unlimited)
           Batches,       \* candidate series batch sizes
           NonAtomic      \* FALSE; TRUE = broken limiter (load, then store) used for the sanity run
 
-VARIABLES work, extra, sLimit, cLimit, lazy, batch,       \* the case
+VARIABLES work, extra, sLimit, cLimit, lazy, batch, skip, \* the case (skip = SkipChunks: no chunks, no chunk reservations)
           sRes, cRes,                                     \* limiter counters
           pc, pos, inBatch, matched, tmp,                 \* per goroutine
           failed,                                         \* goroutines that hit a limit
           sent                                            \* per block: series handed to the merge
-vars == <<work, extra, sLimit, cLimit, lazy, batch, sRes, cRes, pc, pos, inBatch, matched, tmp, failed, sent>>
+vars == <<work, extra, sLimit, cLimit, lazy, batch, skip, sRes, cRes, pc, pos, inBatch, matched, tmp, failed, sent>>
 
 ChunkSeqs == UNION { [1..n -> 1..MaxChunks] : n \in 0..MaxSeries }
 
 Init ==
     /\ work \in [Blocks -> ChunkSeqs]
     /\ extra \in [Blocks -> 0..MaxExtra]
-    /\ sLimit \in Limits /\ cLimit \in Limits
-    /\ lazy \in BOOLEAN /\ batch \in Batches
+    /\ sLimit \in SLimits /\ cLimit \in CLimits
+    /\ lazy \in BOOLEAN /\ batch \in Batches /\ skip \in BOOLEAN
     /\ sRes = 0 /\ cRes = 0
     /\ pc = [b \in Blocks |-> "expand"]
     /\ pos = [b \in Blocks |-> 0]          \* postings consumed
@@ -71,7 +72,7 @@ Expand(b) ==
             /\ IF ReserveOK(sRes, Postings(b), sLimit)
                  THEN StartBatch(b, 0) /\ UNCHANGED failed
                  ELSE Fail(b) /\ UNCHANGED <<inBatch, matched>>
-    /\ UNCHANGED <<work, extra, sLimit, cLimit, lazy, batch, cRes, pos, tmp, sent>>
+    /\ UNCHANGED <<work, extra, sLimit, cLimit, lazy, batch, skip, cRes, pos, tmp, sent>>
 
 (* nextBatch, one posting: a posting without series is skipped, a series reserves its chunks *)
 Visit(b) ==
@@ -81,12 +82,12 @@ Visit(b) ==
        /\ inBatch' = [inBatch EXCEPT ![b] = @ - 1]
        /\ IF p <= extra[b]
             THEN UNCHANGED <<cRes, matched, failed, pc>>
-            ELSE LET n == work[b][p - extra[b]] IN
+            ELSE LET n == IF skip THEN 0 ELSE work[b][p - extra[b]] IN   \* SkipChunks: nothing to reserve
                  /\ cRes' = ReserveNew(cRes, n)
-                 /\ IF ReserveOK(cRes, n, cLimit)
+                 /\ IF skip \/ ReserveOK(cRes, n, cLimit)
                       THEN matched' = [matched EXCEPT ![b] = @ + 1] /\ UNCHANGED <<failed, pc>>
                       ELSE Fail(b) /\ UNCHANGED matched
-    /\ UNCHANGED <<work, extra, sLimit, cLimit, lazy, batch, sRes, tmp, sent>>
+    /\ UNCHANGED <<work, extra, sLimit, cLimit, lazy, batch, skip, sRes, tmp, sent>>
 
 (* end of nextBatch *)
 EndBatch(b) ==
@@ -99,18 +100,18 @@ EndBatch(b) ==
                    ELSE Fail(b) /\ UNCHANGED <<sent, inBatch, matched>>
          ELSE /\ sent' = [sent EXCEPT ![b] = @ + matched[b]]
               /\ StartBatch(b, pos[b]) /\ UNCHANGED <<sRes, failed>>
-    /\ UNCHANGED <<work, extra, sLimit, cLimit, lazy, batch, cRes, pos, tmp>>
+    /\ UNCHANGED <<work, extra, sLimit, cLimit, lazy, batch, skip, cRes, pos, tmp>>
 
 (* ---- the broken limiter of the sanity run: load and store are two steps (NonAtomic = TRUE) ---- *)
 LoadS(b) == /\ NonAtomic /\ pc[b] = "expand" /\ ~lazy
             /\ tmp' = [tmp EXCEPT ![b] = sRes] /\ pc' = [pc EXCEPT ![b] = "expand2"]
-            /\ UNCHANGED <<work, extra, sLimit, cLimit, lazy, batch, sRes, cRes, pos, inBatch, matched, failed, sent>>
+            /\ UNCHANGED <<work, extra, sLimit, cLimit, lazy, batch, skip, sRes, cRes, pos, inBatch, matched, failed, sent>>
 StoreS(b) == /\ pc[b] = "expand2"
              /\ sRes' = tmp[b] + Postings(b)
              /\ IF sLimit = 0 \/ tmp[b] + Postings(b) <= sLimit
                   THEN StartBatch(b, 0) /\ UNCHANGED failed
                   ELSE Fail(b) /\ UNCHANGED <<inBatch, matched>>
-             /\ UNCHANGED <<work, extra, sLimit, cLimit, lazy, batch, cRes, pos, tmp, sent>>
+             /\ UNCHANGED <<work, extra, sLimit, cLimit, lazy, batch, skip, cRes, pos, tmp, sent>>
 
 Next == \E b \in Blocks : (IF NonAtomic /\ ~lazy THEN LoadS(b) \/ StoreS(b) ELSE Expand(b)) \/ Visit(b) \/ EndBatch(b)
 Spec == Init /\ [][Next]_vars /\ WF_vars(Next)
@@ -118,7 +119,7 @@ Spec == Init /\ [][Next]_vars /\ WF_vars(Next)
 (* ---------------- C09 ---------------- *)
 AllDone == \A b \in Blocks : pc[b] = "done"
 OK == failed = {}
-BlockChunks(b) == SeqSum(work[b])
+BlockChunks(b) == IF skip THEN 0 ELSE SeqSum(work[b])
 SumOver(S, F(_)) == FoldSet(LAMBDA x, acc : acc + F(x), 0, S)
 TrueSeries == LET F(b) == Len(work[b]) IN SumOver(Blocks, F)      \* upper bound of the merged answer
 TrueChunks == LET F(b) == BlockChunks(b) IN SumOver(Blocks, F)
